@@ -644,3 +644,21 @@ Proof.
   split; [|vm_compute; reflexivity].
   intros m [<-|[<-|[]]]; vm_compute; split; congruence.
 Qed.
+
+(* ------------------------------------------------------------------------------------------------------------ *)
+(* 5. The session publisher                                                                                      *)
+(* ------------------------------------------------------------------------------------------------------------ *)
+
+(* a StateExpired session event, as the zookeeper coordinator publishes it, closes the gate of an evaluating loop and
+   leaves it waiting for the reconnect (it does not touch the lock before a later StateConnected) *)
+Theorem zk_expiry_stops_evaluation : forall mi s c,
+  ph s = Evaluating ->
+  let r := feed (step_s mi) s (zk_session true ZkExpired c) in
+  ph (fst r) = WaitReconnect /\ doEval (fst r) = false /\ conn (fst r) = false /\ snd r = []
+  /\ snd (step_s mi (fst r) Wake) = [].
+Proof. intros mi [p d c0 gs] c Hp. simpl in Hp. subst p. cbn. repeat split; reflexivity. Qed.
+
+(* ... and every event it publishes is an event of the traces the theorems above quantify over; events that are not
+   session events, and session states other than expired / connected, publish nothing *)
+Lemma zk_session_other : forall st c, zk_session false st c = [] /\ zk_session true ZkOtherState c = [].
+Proof. intros; split; reflexivity. Qed.
